@@ -120,6 +120,9 @@ func TestC16Sweep(t *testing.T) {
 	for _, td := range tests {
 		for _, p := range td.Params {
 			sizes := []int{max(100, minBitsFor(td, p)), 1000000}
+			if td.Key != "lincomp" && td.Key != "dft" && td.Key != "rank" && td.Key != "maurer" { // the linear-time tests also on 4*10^6 bits in every run
+				sizes = append(sizes, 4000003)
+			}
 			if envInt("VERIF_BIG", 0) == 1 {
 				sizes = []int{10000000}
 				if td.Key == "dft" {
